@@ -667,7 +667,13 @@ func ext۰reflect۰Value۰Index(fr *frame, args []value) value {
 		if i < 0 || i >= len(v) {
 			panic(reflectPanic(fr, "reflect: array index out of range"))
 		}
-		return makeReflectValueF(t.Underlying().(*types.Array).Elem(), copyVal(v[i]), fl)
+		ev := makeReflectValueF(t.Underlying().(*types.Array).Elem(), copyVal(v[i]), fl)
+		if a := rV2A(args[0]); a != nil { // element of an addressable array is addressable
+			if cell, ok := (*a).(array); ok && i < len(cell) {
+				ev = withAddr(ev, &cell[i])
+			}
+		}
+		return ev
 	case []value:
 		if i < 0 || i >= len(v) {
 			panic(reflectPanic(fr, "reflect: slice index out of range"))
